@@ -91,15 +91,17 @@ P("C12", "model_checking", native=True, kani={"timeout": "600s", "compile_clause
   bounded="native family rand_diff: 48 (thorough 240) RANDOM programs under join! / try_join! / join_spawn! / try_join_spawn! (1-3 branches x 1-3 steps, operators from the Option pool, plain or block operands, captures reading or reassigning names, let / let mut, failing initial values, optional handler) x 48 (400) sampled inputs against the staged reference, value and evaluation trace; n<=3, d<=3, subsets of named branches (quick: 6 masks per profile), every later step has a capture reading a name; 4 executable macro kinds",
   not_decided="spawn kinds")
 P("C13", "model_checking", native=True, kani={"timeout": "600s"}, rac=["reject", "structure"],
+  unbounded="Handler::try_from builds the variant whose keyword stands in the input (module handler); JoinOutput::new rejects exactly the wrong kind / handler combinations (doc_guard) and hands the handler on unchanged, generate_join / join_impl pass it through; generate_handle emits the documented call for any number of branches; to_tokens binds the handler once, before the steps",
   bounded="every legal (kind x handler) for the 4 executable kinds, n<=3, handler at end / between branches, failure flags symbolic; handler call count, argument order, wrapping, awaited value",
   not_decided="spawn kinds")
 P("C16", "model_checking",
-  unbounded="defaults of lazy_branches / transpose_results (R8); which joiner a step gets (generate_step_tail): the custom joiner iff more than one branch is active, else futures_crate_path::join!/try_join! (async) or a plain tuple (sync)",
+  unbounded="each option block of the parser writes ITS field only and rejects a second occurrence (parse_option_<kw>); parse / join_impl / generate_join hand every option to the field it belongs to (R14-resolved accessors); defaults of lazy_branches / transpose_results (JoinOutput::new as a whole); which joiner a step gets (generate_step_tail): the custom joiner iff more than one branch is active, else futures_crate_path::join!/try_join! (async) or a plain tuple (sync)",
   kani={"timeout": "600s"}, rac=["options", "futures_path"],
   bounded="logging joiner (macro form) on 8 depth profiles eager/lazy; transposing joiner with transpose_results(false) on 6 profiles; futures_crate_path via a re-export; all four options together",
   not_decided="spawn kinds")
 
 P("C15", "model_checking", rac=["reject", "enum"],
+  unbounded="the contract chain <JoinInputDefault as Parse>::parse (at least one branch, only chains the builder accepted) -> build_from_parse_stream (per-step balance + per-member facts) -> lemma_accepted_branch -> join_impl -> generate_join -> JoinOutput::new (jo_wf) -> to_tokens ...: no expect / unwrap / unreachable of the generator is reachable for anything the parser accepted (generate_join's unwrap under doc_guard == 0: a rejected kind / handler combination panics there, which IS the compile error); parse_until as a whole, its scan step and suffix",
   bounded="rejection matrix (464 cases, exhaustive over its finite domain); all token sequences of length <= 4 (thorough 5) over a 27-word DSL vocabulary and of length <= 7 (thorough 8) over an 8-word wrapper/step vocabulary: outcome class never `internal panic`, accepted inputs expand to a Rust expression",
   not_decided="totality of syn itself; longer inputs")
 P("C20", "other", rac=["purity"], frame_audit=True,
@@ -108,7 +110,8 @@ P("C20", "other", rac=["purity"], frame_audit=True,
   unbounded="frame audit (syntactic, every run): join_impl / join contain no static mut, thread_local!, lazy_static!, lazily initialised global, static with interior mutability, ambient input or hash collection - so the expansion has nothing but its arguments to depend on (given A4)",
   not_decided="purity of syn / proc_macro2 themselves (A4); if the audit ever finds one of those constructs the check answers UNDECIDED unless sampling finds a violation")
 P("C14", "model_checking", rac=["structure"],
-  bounded="parsed chain structure == structure the input was rendered from: 22 operators x deferred x 12 (thorough 20) operand shapes, all adjacent operator pairs x 4 deferred patterns, 10 wrappers x 22 inner operators x 3 closing shapes",
+  unbounded="determiner table == documented spellings and first match = longest match (lemmas); parse_until's scan step ends an operand at the FIRST matching table row and only after a complete operand; check_parsed: complete iff syn parses the collected tokens as a T (valid_stream), Empty parses exactly the empty stream; parse_until as a whole hands on a well-formed next group",
+  bounded="parsed chain structure == structure the input was rendered from: 22 operators x deferred x 34 (thorough: all) operand shapes, all adjacent operator pairs x 4 deferred patterns, 10 wrappers x 22 inner operators x 3 closing shapes, handler-keyword operands, a handler directly behind a branch (comma optional after a block), operands ending with `?`, several explicit closes before deferred operators, handler expressions of every shape",
   not_decided="operands outside the pool; split-point logic inside syn")
 
 P("C17", "proof", kani={"timeout": "1500s", "compile_clause": True}, native=True,
